@@ -304,7 +304,10 @@ Definition tie (k : case) : bool :=
       match recover_full tb fa mm, obs with
       | Ok m, Ok f => cfg_eqb (f_cfg m) (f_cfg f) && (f_addr m =? f_addr f) &&
                       match recover tb fa mm with
-                      | Ok m0 => lang_bisim (f_cfg m0) (f_cfg f) && multiset_eqb (all_items (f_cfg m0)) (all_items (f_cfg f))
+                      | Ok m0 => let g0 := static_view (f_cfg m0) in
+                                 (* merge_ready: Props/C06.v recover_full_lang applies to this very graph *)
+                                 merge_ready g0 && lang_bisim g0 (f_cfg f) &&
+                                 multiset_eqb (all_items g0) (all_items (f_cfg f))
                       | _ => false
                       end
       | Err e, Err e' => err_eqb e e'
